@@ -266,6 +266,85 @@ def ownership_rules(prog, res, rule_prefix='own'):
                              function=f.sig, expr='%s->%s.%s' % (what, kind, '.'.join(path)))
     res.info['aliasing_copy_sites'] = ncopies
 
+    # (write-through-copy) inside a function: a local object of an aliasing class that has been copied, or an element of a
+    # local vector filled with copies of an lvalue, shares its payload with the other copies; reaching the payload through a
+    # non-const accessor of such an object writes into all of them
+    nwt = 0
+    for q, a in sorted(al.items()):
+        if not a['copyable'] or not a['handles'] or not (a['ctor'] or a['assign']):
+            continue
+        vecq = 'std::vector<%s>' % q
+        payload_nc = set()
+        for g in prog.repo_funcs():
+            if g.cls == q and g.kind == 'method' and str(g.rec.get('ret', '')).endswith('&') and not str(g.rec.get('ret', '')).startswith('const '):
+                payload_nc.add(g.usr)
+        for f in prog.repo_funcs():
+            if f.cls == q:
+                continue
+            for n in f.calls():
+                if n['k'] != 'CXXMemberCallExpr' or n['callee'].get('usr') not in payload_nc or n.get('obj') is None:
+                    continue
+                o = f.nodes[f.strip(n['obj'], 'all')]
+                # the object: a local of class q, or an element (back / front / [] / at) of a local vector<q>
+                elem = None
+                if o['k'] in ('CXXMemberCallExpr', 'CXXOperatorCallExpr') and o.get('callee', {}).get('name') in ('back', 'front', 'at', 'operator[]'):
+                    base = o.get('obj') if o['k'] == 'CXXMemberCallExpr' else (o.get('args') or [None])[0]
+                    if base is not None:
+                        elem = f.nodes[f.strip(base, 'all')]
+                what = '%s() on %s' % (n['callee']['name'], 'an element of a local vector' if elem is not None else 'a local object')
+                if elem is not None and elem['k'] == 'DeclRefExpr' and elem['decl'].get('dk') == 'local' and elem['decl'].get('type', '').replace('const ', '') == vecq:
+                    vid = elem['decl']['id']
+                    shared = None
+                    for c in f.calls():
+                        if c.get('callee', {}).get('class') != vecq or c['callee']['name'] not in ('push_back', 'insert', 'assign', 'resize', 'emplace_back'):
+                            continue
+                        co = f.call_obj(c)
+                        cn = f.nodes[f.strip(co, 'all')] if co is not None else None
+                        if cn is None or cn['k'] != 'DeclRefExpr' or cn['decl'].get('id') != vid:
+                            continue
+                        srcs = f.call_args(c)[1:] if c['callee']['name'] == 'resize' else f.call_args(c)
+                        for sx in srcs:
+                            sn = f.nodes[f.strip(sx, 'all')]
+                            if sn['k'] == 'DeclRefExpr' and sn['decl'].get('type', '').replace('const ', '').replace(' &', '') == q:
+                                shared = (c, sn['decl']['name'])
+                    nwt += 1
+                    if shared:
+                        res.viol(R('write-through-copy'), what, f.loc(n['id']), 'the elements of `%s` are copies of `%s` (line %d): a copied %s shares its payload with its source, so writing through %s() '
+                                 'modifies every copy made from it' % (elem['decl']['name'], shared[1], f.nodes[shared[0]['id']].get('line', 0), q.split('::')[-1], n['callee']['name']),
+                                 function=f.sig, expr='wt:%s' % n['callee']['name'])
+                    else:
+                        res.ok(R('write-through-copy'), what, f.loc(n['id']), 'no element of the vector is a copy of a named object', function=f.sig, expr='wt@%d' % n['id'], nontrivial=False)
+                elif o['k'] == 'DeclRefExpr' and o['decl'].get('dk') == 'local' and not o['decl'].get('isref') and o['decl'].get('type', '').replace('const ', '') == q:
+                    did = o['decl']['id']
+                    g_ = f.events()
+                    copied = None
+                    for c in f.nodes:
+                        if c['k'] not in CALL_KINDS or 'callee' not in c:
+                            continue
+                        cal = c['callee']
+                        is_copy = (cal.get('class') == q and (cal.get('copy') or cal.get('copyassign'))) or (cal.get('class') == vecq and cal['name'] in ('push_back', 'insert', 'assign', 'resize', 'emplace_back'))
+                        if not is_copy:
+                            continue
+                        args_ = c.get('args', []) if c['k'] in ('CXXConstructExpr', 'CXXTemporaryObjectExpr') else f.call_args(c)
+                        if not any(f.nodes[f.strip(x_, 'all')]['k'] == 'DeclRefExpr' and f.nodes[f.strip(x_, 'all')]['decl'].get('id') == did for x_ in args_):
+                            continue
+                        # is the copy made before the write (on some path)?
+                        try:
+                            vs = [v_ for v_ in g_.vertices() if g_.node_of(v_) == c['id']]
+                            vt = [v_ for v_ in g_.vertices() if g_.node_of(v_) == n['id']]
+                            before = bool(vs and vt and vt[0] in g_.reach(vs))
+                        except Exception:
+                            before = c['id'] < n['id']
+                        if before:
+                            copied = c
+                    nwt += 1
+                    if copied is not None:
+                        res.viol(R('write-through-copy'), what, f.loc(n['id']), '`%s` has been copied before (line %d): the copy shares its payload, so writing through %s() modifies the copy as well' %
+                                 (o['decl']['name'], copied.get('line', 0), n['callee']['name']), function=f.sig, expr='wt:%s' % n['callee']['name'])
+                    else:
+                        res.ok(R('write-through-copy'), what, f.loc(n['id']), 'the object has not been copied when its payload is written', function=f.sig, expr='wt@%d' % n['id'], nontrivial=False)
+    res.info['payload_writes_on_locals'] = nwt
+
     # (no-write-through) a non-const method of a handle class never modifies the payload behind a handle
     # (copies of the object share it); it may only replace the handle by a fresh payload — and the
     # whole-object replacement add(const Frame&) replaces every handle on every path
